@@ -67,7 +67,8 @@ def render_location(text, pos, endpos, lineno, indent, strip, out):
             continue
         strip = False
         out.append(indent + line.rstrip().expandtabs())
-    out.append(indent + lines[lineno].rstrip().expandtabs())
+    if lineno < len(lines):
+        out.append(indent + lines[lineno].rstrip().expandtabs())
     out.append(indent + ' ' * pos + '^' * length)
 
 
